@@ -37,6 +37,8 @@ SOURCES = {
     "name-rebound-in-function": "from shapes16 import Circle\n" + BODY + "\nKEEP = Circle\n\n\ndef lazy():\n    from other16 import Thing as Circle\n    return Circle()\n\n\nLAZY = lazy()\n",
     "try-fallback-import": "try:\n    from shapes16 import Circle\nexcept ImportError:\n    from other16 import Thing as Circle\n" + BODY + "\nKEEP = Circle\n",
     "module-alias-rebound": "import shapes16 as sh\n" + BODY + "\nSIDE2 = sh.SIDE\n\n\ndef lazy():\n    import other16 as sh\n    return sh.Thing()\n\n\nLAZY = lazy()\n",
+    # nothing left to annotate (libcst's applier then returns the tree untouched)
+    "already-annotated": "import os\n\n\ndef area(c: object, k: int = 1) -> int:\n    return k\n\n\ndef make() -> None:\n    return None\n\n\nRESULT = area(None)\n",
     "self-reference": "from typing import Optional\n\n\nclass Node:\n    def link(self, other):\n        return other\n" + BODY,
 }
 STUBS = {
